@@ -15,7 +15,13 @@ CONSTANTS DenLo, DenHi,       \* common denominators DenLo..DenHi (several TLC r
 VARIABLE c
 
 Amounts == (0..Dense) \cup {a \in {97, 99, 100, 101, 127, 128, 199, 200, 255, 256, 360, 499, 500, 997, 999, 1000, 1001, 1023, 1024, 1999, 2000} : a <= MaxAmt}
-Vectors == UNION {PVecsExplicit(den, k) \cup PVecsRemaining(den, k) : den \in DenLo..DenHi, k \in 1..MaxLen}
+\* percent-like portions (numerators large enough that amount * numerator leaves the machine word
+\* long before the amount does); added to the partition that starts at denominator 1
+PercentVectors ==
+    IF DenLo # 1 THEN {}
+    ELSE UNION {{<<Reduced(x, 100), Reduced(100 - x, 100)>>, <<Reduced(x, 100), PRem>>, <<PRem, Reduced(x, 100)>>} :
+                   x \in {1, 7, 33, 50, 67, 99}}
+Vectors == PercentVectors \cup UNION {PVecsExplicit(den, k) \cup PVecsRemaining(den, k) : den \in DenLo..DenHi, k \in 1..MaxLen}
 
 Init == c \in {[ports |-> pv, amt |-> a] : pv \in Vectors, a \in Amounts}
 Next == UNCHANGED c
